@@ -7,7 +7,7 @@ CONSTANTS
   FmtTokens <- FTokQ
   MaxFmt <- NoFmt
   Heads <- HeadsAndEq
-  OptParts <- OptsMid
+  OptParts <- OptsEight
   MaxOpts = 3
   AllowNoFs = TRUE
   Setters <- NoneSet
